@@ -27,7 +27,7 @@ FRACS = [0.0, 1.0, 0.2, 0.29, 0.3, 0.7, 1 / 3, 0.1, 0.5, 0.25, 0.58, 0.57, 0.9, 
 
 @st.composite
 def split_cases(draw):
-    n = draw(st.integers(0, 60))
+    n = draw(st.one_of(st.integers(0, 60), st.sampled_from([97, 128, 250, 1000])))
     f = st.one_of(st.sampled_from(FRACS), st.floats(0, 1, allow_nan=False).map(lambda v: round(v, 3)))
     return {"n": n, "test": draw(f), "val": draw(st.one_of(st.none(), f)), "shuffle": draw(st.booleans()),
             "seed": draw(st.integers(0, 2 ** 31 - 1)), "default_test": draw(st.integers(0, 7)) == 0}
@@ -113,8 +113,8 @@ def check_split(c, rec):
 # ---- DataLoader -----------------------------------------------------------------------------------
 @st.composite
 def loader_cases(draw):
-    n = draw(st.integers(0, 40))
-    return {"n": n, "batch": draw(st.integers(1, n + 3)),
+    n = draw(st.one_of(st.integers(0, 40), st.sampled_from([64, 100, 257])))
+    return {"n": n, "batch": draw(st.one_of(st.integers(1, n + 3), st.integers(1, 9))),
             "transform": draw(st.sampled_from(["none", "none_default", "record", "new_objects"])),
             "partial_first_pass": draw(st.integers(0, 3))}
 
